@@ -82,7 +82,7 @@ class Engine(EngineBase):
         knobs = {"listing": rng.choice(["shuffle", "sorted", "reverse"]), "chunk": rng.choice(["none", "split2"]),
                  "clock": "inc", "pool": rng.randrange(1, 5), "policy": rng.choice(["random", "pct"]),
                  # the documented configuration key for the cache-miss warning (None: not set)
-                 "miss_threshold": rng.choice([None, None, None, 1, 3, 500])}
+                 "miss_threshold": rng.choice([None, None, None, 1, 3, 500]), "fd_rmtree": rng.random() < 0.5}
         n = rng.randrange(5, 40)
         pool = [gen_sp(rng) for _ in range(8)]
         ops = []
